@@ -398,7 +398,9 @@ func run(ci any, r *mon.Rec) {
 		if c.Mode == "reconnect" {
 			rtc = 100 * time.Millisecond
 		}
+		dials := 0 // the application's own dial bookkeeping, unsynchronised: Connect calls on one client are carried out one at a time
 		cfg := modbus.ClientConfig{ReadTimeout: rtc, WriteTimeout: wt, Hooks: hooksOrNil(gh), DialContextFunc: func(ctx context.Context, a string) (net.Conn, error) {
+			dials++
 			if failDial.Load() {
 				if failedDials.Add(1)%2 == 1 {
 					return nil, errors.New("verif: dial refused")
